@@ -70,6 +70,8 @@ fn layer_toml(c: &LayerCase) -> String {
         let named: Vec<String> = NAMED_ONLY.iter().filter(|(nq, _, _)| *nq == q).map(|(_, n, r)| format!("{{ names = [\"{n}\"], symbols = [], ratio = {r:?} }}")).collect();
         s.push_str(&format!("[[quantity]]\nquantity = \"{q}\"\n[quantity.units]\nunspecified = [ {{ names = [\"{name}\"], symbols = [\"{sym}\"], ratio = {size:?} }}, {} ]\n", named.join(", ")));
     }
+    // fractions for temperatures too (units.toml switches them off): fitting then goes through the fraction path
+    s.push_str("[fractions.quantity]\ntemperature = true\n");
     s.push_str("[[quantity]]\nquantity = \"temperature\"\n[quantity.units]\nmetric = [ { names = [\"degree\"], symbols = [\"deg\"], ratio = 1, difference = 273.15, expand_si = true }, { names = [\"kelvin\"], symbols = [\"K\"], ratio = 1 } ]\n");
     // the layer may name other best units for volume: the later designation wins
     if c.by_name {
@@ -186,7 +188,29 @@ pub fn check(c: &LayerCase, st: &mut Stats) -> Verdict {
     }
     let expected_default = if c.default_imperial == Some(true) { System::Imperial } else { System::Metric };
     vensure!(conv.default_system() == expected_default, "c09.layer-default-system", "default system {:?}, the layers say {expected_default:?}; {}", conv.default_system(), ctx());
-    // temperatures: direct conversions only (an offset has no additive amount to preserve)
+    // temperatures: the point on the scale is what must be kept (an offset has no additive amount); fitting
+    // one keeps the point, whatever unit and fraction it is shown in
+    if a.quantity == PhysicalQuantity::Temperature && c.op % 5 == 2 && e.is_none() {
+        st.class("fit() of a temperature with fractions on");
+        let mut q: ScaledQuantity = Quantity::new(Value::Number(Number::Regular(s)), Some(a.key.clone()));
+        match guard(|| q.fit(&conv)) {
+            Err(p) => vbail!("c09.panic.system", "fit of {s} {} panicked: {p}; {}", a.key, ctx()),
+            Ok(Err(err)) => vbail!("c09.system-conversion-failed", "fit of {s} {} failed: {err}; {}", a.key, ctx()),
+            Ok(Ok(())) => {}
+        }
+        let Some(ru) = q.unit().and_then(|k| conv.find_unit(k)) else {
+            vbail!("c09.system-unit-unknown", "fit of {s} {} gave {q:?}; {}", a.key, ctx());
+        };
+        let Value::Number(n) = q.value() else { vbail!("c09.value-kind", "{q:?}") };
+        let (point0, point1) = ((s + a.offset) * a.size, (n.value() + ru.difference) * ru.ratio);
+        vensure!(
+            approx_eq(point0, point1, 1e-9, 1e-6),
+            "c09.system-amount-changed",
+            "fit of {s} {} gave {q:?}: {point0} K became {point1} K; {}",
+            a.key, ctx()
+        );
+        return Ok(());
+    }
     let op = if a.quantity == PhysicalQuantity::Temperature { 0 } else { c.op % 5 };
     st.class(["convert(unit)", "Converter::convert(SameSystem)", "fit()", "convert(Metric)", "convert(Imperial)"][op as usize]);
     if op == 0 {
